@@ -560,6 +560,12 @@ impl Stream {
             let pending_entries = group.add_pending(consumer_name, entries.clone());
             Ok(pending_entries)
         } else {
+            // NOACK deliveries are not pending but still advance the group
+            if after_id == StreamId::max() {
+                if let Some(last) = entries.last() {
+                    group.set_id(last.id);
+                }
+            }
             Ok(entries)
         }
     }
